@@ -7,16 +7,17 @@ NOTE_BASE = ("Trusted: rustc's type checking/name resolution/MIR construction; d
 CLAIMS = {
     "C01": dict(
         category="other",
-        text="Partial, and stated as such: decides only the INTERPOLATION LAYER of C01, relative to C02 (that selection returns the true "
-             "order statistics is a runtime-value property that static analysis cannot decide here and is not claimed). Decided on MIR: "
-             "index arithmetic (N−1)q with floor/ceil/fract; the five strategies' needs_lower/needs_higher and interpolate formulas (CAS "
-             "on extracted terms); the bulk routine applies the strategy to the values looked up at lower/higher index of the j-th q and "
-             "stores it in the j-th slot; result shape = input shape with the axis resized to the number of requested quantiles; single = "
-             "slice 0 of bulk; sorted+deduped index vector; axis passed through; error rows. Not decided: the selected elements "
-             "themselves, representability/integer rounding, pivot independence.",
+        text="Partial, and stated as such: decides C01 in exact arithmetic. (a) The values the strategies are applied to are the order "
+             "statistics: the bulk selection is proved for all lanes and pivot sequences (R25 representative-element abstract execution "
+             "on partition_mut's proved contract R22; see C02), so the result cannot depend on the pivots drawn. (b) The interpolation "
+             "layer, decided on MIR: index arithmetic (N−1)q with floor/ceil/fract; the five strategies' needs_lower/needs_higher and "
+             "interpolate formulas (CAS on extracted terms); the bulk routine applies the strategy to the values looked up at lower/higher "
+             "index of the j-th q and stores it in the j-th slot; result shape = input shape with the axis resized to the number of requested "
+             "quantiles; single = slice 0 of bulk; sorted+deduped index vector; axis passed through; error rows. Not decided: floating-point "
+             "rounding of q·(N−1) and of the formulas, the 'within one unit' clause for integer element types, representability.",
         design_ref="DESIGN.md §4 C01",
         note=NOTE_BASE + " sympy for the strategy formulas.",
-        technique="static analysis: symbolic term extraction of the interpolation formulas + delegation/shape/pairing rules over MIR",
+        technique="static analysis: symbolic term extraction of the interpolation formulas + delegation/shape/pairing rules + summary-based abstract execution of the bulk selection, over MIR",
     ),
     "C20": dict(
         category="proof",
@@ -74,15 +75,19 @@ CLAIMS = {
     ),
     "C02": dict(
         category="other",
-        text="SINGLE selection (get_from_sorted_mut) is proved statically for every input and every pivot sequence: all return paths are "
-             "executed abstractly with partition_mut's contract (itself proved: R22/R18) and the induction hypothesis on the strictly "
-             "shorter sub-view, with relations between value symbols closed under transitivity; the postcondition a[i] = r, everything "
-             "before i ≤ r, everything after ≥ r follows; only swaps move data (R4), so r is the element a full sort places at i; the pivot "
-             "index is unconstrained in the proof. BULK selection: only 'one entry per distinct index in increasing index order' is decided "
-             "(sorted+deduped typestate, index/value zip); that each bulk entry equals the single selection is NOT decided.",
+        text="Both selection routines are proved statically for every input and every pivot sequence (partial correctness; Ord assumed a "
+             "lawful total order). SINGLE (R24): all return paths of get_from_sorted_mut are executed abstractly with partition_mut's "
+             "contract (itself proved: R22/R18) and the induction hypothesis on the sub-view, relations between value symbols closed "
+             "under transitivity; postcondition a[i] = r, everything before i ≤ r, everything after ≥ r. BULK (R25): the recursive "
+             "divide-and-conquer is proved by representative-element abstract execution over (zone, array facts, universally quantified "
+             "range facts on the index list, slice handles): for an arbitrary requested position t, values[t] = w with array[j] = w, left ≤ w, "
+             "right ≥ w on every path and case; the induction hypothesis' precondition (strictly increasing, in bounds after rebasing by "
+             "exactly the sub-view start, aligned slices) is proved at both recursive calls; the wrapper pairs indexes[t] with values[t] in "
+             "increasing index order (R12 sorted+deduped, R5 bounds). Only swaps move data (R4), so these are the elements a full sort "
+             "places there; the pivot index is an unconstrained value in both proofs.",
         design_ref="DESIGN.md §4 C02",
         note=NOTE_BASE + " Ord is assumed a lawful total order.",
-        technique="static analysis: summary-based abstract execution of all paths (segment predicates + symbolic order relations) on MIR",
+        technique="static analysis: summary-based abstract execution of all MIR paths (zone + array-segment predicates + symbolic order relations; representative-element quantified facts for the bulk form)",
     ),
     "C03": dict(
         category="proof",
@@ -215,7 +220,7 @@ CLAIMS = {
 
 
 NOT_APPLICABLE = {
-    "C19": "static analysis has nothing further to decide here: monotonicity in q, bracketing by min/max, ordering between strategies, permutation- and relabelling-invariance relate the values of several runs; they are mathematical corollaries of C01 (interpolation layer: decided) and C02 (selection: decided for the single form only, not for the bulk form the quantiles use) plus floating-point monotonicity arguments - there is no additional structure in the code whose shape decides them (DESIGN.md §4 C19)",
+    "C19": "static analysis has nothing further to decide here: monotonicity in q, bracketing by min/max, ordering between strategies, permutation- and relabelling-invariance relate the values of several runs; they are mathematical corollaries of C01 (interpolation layer: decided) and C02 (selection: decided) plus floating-point monotonicity arguments - there is no additional structure in the code whose shape decides them (DESIGN.md §4 C19)",
 }
 
 NOTES = ("Technique family: static analysis only. Every check re-extracts MIR facts from /repo's working tree with a rustc_private "
